@@ -1,5 +1,8 @@
 #![allow(dead_code, unused_variables, unused_imports, clippy::all)]
 mod bcverify;
+mod c02;
+mod refeval;
+mod runsync;
 mod c07;
 mod corpus;
 mod progen;
@@ -26,6 +29,7 @@ fn run_check(id: &str, tier: Tier) -> Result<infra::Report, String> {
         "C15" => sim::checks::c15(tier),
         "C14" => sim::checks::c14(tier),
         "C07" => c07::run(tier),
+        "C02" => c02::run(tier),
         // REGISTRY (run): "CNN" => cNN::run(tier),
         _ => Err(format!("no check registered for {}", id)),
     }
@@ -43,6 +47,7 @@ fn run_replay(id: &str, path: &std::path::Path) -> i32 {
         }
         _ => match id {
             "C07" => c07::replay(replay),
+            "C02" => c02::replay(replay),
             // REGISTRY (replay): "CNN" => cNN::replay(replay),
             _ => Err(format!("no replay handler for {}", id)),
         },
@@ -78,6 +83,18 @@ fn main() {
             probe(&src, w, q);
         }
         "probe-scenarios" => probe_scenarios(),
+        "judge" => {
+            for src in &args[2..] {
+                println!("{:?}\n  ref: {:?}", src, refeval::evaluate(src, 20000));
+                match c02::judge(src) {
+                    c02::Verdict::Disagree { kind, expected, observed } => println!("  DISAGREE {}: expected {} observed {}", kind, expected, observed),
+                    c02::Verdict::Agree { value, .. } => println!("  agree {}", value),
+                    c02::Verdict::Rejected => println!("  rejected"),
+                    c02::Verdict::Abstain(w) => println!("  abstain {}", w),
+                    _ => println!("  other"),
+                }
+            }
+        }
         "gen-counts" => {
             let n: usize = args.get(2).and_then(|s| s.parse().ok()).unwrap_or(3);
             println!("{:?}", progen::counts(n));
